@@ -17,17 +17,17 @@ def run(tier, seed):
     jobs = []
     def variants():
         v = [dict(bursts=[(1, 1), (2, 1)], exitcode=0), dict(bursts=[], exitcode=1), dict(bursts=[(1, 3), (2, 2), (1, 2), (2, 3)], exitcode=255),
-             dict(bursts=[(2, 9), (1, 9)], pad=4090, exitcode=0),                 # ~36 KiB per stream
-             dict(bursts=[(1, 17), (2, 17)], pad=4090, exitcode=3),               # beyond the 64 KiB pipe capacity, one stream after the other
+             dict(bursts=[(2, 9), (1, 9)], pad=4089, exitcode=0),                 # ~36 KiB per stream
+             dict(bursts=[(1, 17), (2, 17)], pad=4089, exitcode=3),               # beyond the 64 KiB pipe capacity, one stream after the other
              dict(bursts=[(1, 2), (2, 1)], sig=15), dict(bursts=[(1, 1)], sig=9)]
         if tier == 'thorough':
-            v += [dict(bursts=[(1, 130), (2, 130)], pad=4090, exitcode=0), dict(bursts=[(1, 1), (2, 1)] * 120, pad=4090, exitcode=0),   # ~1 MiB
+            v += [dict(bursts=[(1, 130), (2, 130)], pad=4089, exitcode=0), dict(bursts=[(1, 1), (2, 1)] * 120, pad=4089, exitcode=0),   # ~1 MiB
                   dict(bursts=[(1, 5), (2, 5)], sig=24), dict(bursts=[(1, 40)], pad=100, exitcode=7)]
             for _ in range(12):
-                v.append(dict(bursts=[(rnd.choice([1, 2]), rnd.randint(1, 30)) for _ in range(rnd.randint(1, 12))], pad=rnd.choice([0, 0, 100, 1000, 4090]), exitcode=rnd.choice([0, 1, 2, 42, 255])))
+                v.append(dict(bursts=[(rnd.choice([1, 2]), rnd.randint(1, 30)) for _ in range(rnd.randint(1, 12))], pad=rnd.choice([0, 0, 100, 1000, 4089]), exitcode=rnd.choice([0, 1, 2, 42, 255])))
         else:
             for _ in range(2):
-                v.append(dict(bursts=[(rnd.choice([1, 2]), rnd.randint(1, 12)) for _ in range(rnd.randint(1, 8))], pad=rnd.choice([0, 100, 4090]), exitcode=rnd.choice([0, 1, 42])))
+                v.append(dict(bursts=[(rnd.choice([1, 2]), rnd.randint(1, 12)) for _ in range(rnd.randint(1, 8))], pad=rnd.choice([0, 100, 4089]), exitcode=rnd.choice([0, 1, 42])))
         return v
     for (so, se, mo, me) in rows:
         for v in variants():
